@@ -7,7 +7,7 @@ release builds).  Search on the implementation: the extracted predicate Arena.wf
 dump the compiled arena_tree produces along admissible histories.
 
 `run(c)` adds these phases to an existing vlib.Check (the C04 check calls it); `main(tier)` runs them
-alone:  ./check C04_LINKS quick   (evidence/C04_LINKS.json, copied to evidence/C04_links.json)."""
+alone:  ./check C04_LINKS quick   (evidence written to evidence/C04_links.json)."""
 import os, re, shutil
 import vlib
 import shrink
@@ -242,5 +242,5 @@ def main(tier):
     c.cov["partial_clauses"] = ["links half of C04 only; acyclicity is NOT implied by link consistency (C04_links_ancestor_append_keeps_wf_but_cycles)"]
     import atexit
     src = os.path.join(vlib.ROOT, "evidence", "C04_LINKS.json")
-    atexit.register(lambda: os.path.exists(src) and shutil.copy(src, os.path.join(vlib.ROOT, "evidence", "C04_links.json")))
+    atexit.register(lambda: os.path.exists(src) and shutil.move(src, os.path.join(vlib.ROOT, "evidence", "C04_links.json")))
     c.finish(level="proof", rule=RULE if ok else "build failed", trusted_base=TRUSTED)
